@@ -288,6 +288,20 @@ void run_bounded(Choices& c, Report& r, bool quiescence)
     while (E().error.empty())
     {
       if (last_actor != 1) { ++alternations; last_actor = 1; }
+      if (m.producer_done && !m.fifo.empty() && c.pick(4) == 3)
+      {
+        // see the unbounded harness: with every store of the finished producer visible, empty() must not hide a record
+        bool const was = E().force_newest;
+        E().force_newest = true;
+        bool const e = q.empty();
+        E().force_newest = was;
+        if (e)
+        {
+          E().fail("empty() returns true although committed record seq " + std::to_string(m.fifo.front().seq) +
+                   " is unread and every store of the finished producer is visible");
+          return;
+        }
+      }
       std::byte* p = (c.pick(5) == 4) ? (q.empty() ? nullptr : q.prepare_read()) : q.prepare_read();
       if (!p)
       {
@@ -565,6 +579,7 @@ void run_unbounded(Choices& c, Report& r, bool quiescence)
     m.producer_done = true;
   };
 
+  unsigned empty_calls = 0;
   auto consumer = [&]()
   {
     unsigned pending = 0;
@@ -575,6 +590,24 @@ void run_unbounded(Choices& c, Report& r, bool quiescence)
       if (c.pick(6) == 5)
       {
         if (q.capacity() != nodes[cnode].cap) { E().fail("consumer capacity() differs from the model's current node"); return; }
+      }
+      if (c.pick(5) == 4)
+      {
+        // the backend asks empty() before and between its read passes (and bases its exit and reclaim decisions on it).
+        // Once the producer has finished and everything it stored is visible (an external synchronisation such as a
+        // thread join: modelled by loads that return the newest store) empty() must not hide an unread committed record.
+        bool const all_visible = m.producer_done && !m.fifo.empty();
+        bool const was = E().force_newest;
+        if (all_visible) E().force_newest = true;
+        bool const e = q.empty();
+        E().force_newest = was;
+        ++empty_calls;
+        if (all_visible && e)
+        {
+          E().fail("empty() returns true although committed record seq " + std::to_string(m.fifo.front().seq) +
+                   " is unread and every store of the finished producer is visible (the record would be abandoned at exit / reclaim)");
+          return;
+        }
       }
       Q::ReadResult rr = q.prepare_read();
       if (rr.allocation)
@@ -648,7 +681,7 @@ void run_unbounded(Choices& c, Report& r, bool quiescence)
   E().run();
   r.line("ops: " + opslog);
   r.line("grows=" + std::to_string(grows) + " shrinks=" + std::to_string(shrinks) + " switches_seen=" + std::to_string(switches_seen) +
-         " refused=" + std::to_string(refused) + " threw=" + std::to_string(threw) + " preemptions=" +
+         " refused=" + std::to_string(refused) + " threw=" + std::to_string(threw) + " empty_calls=" + std::to_string(empty_calls) + " preemptions=" +
          std::to_string(E().preemptions) + " stale_loads=" + std::to_string(E().stale_loads));
   if (!E().error.empty()) { r.fail(E().error); return; }
   if (!m.fifo.empty()) { r.fail("records left unconsumed at the end of the case"); return; }
